@@ -138,6 +138,11 @@ Op(rr) ==
                   THEN LET ops == [j \in 1..3 |-> <<IF (rr[4] \div (2 ^ j)) % 2 = 0 THEN "skip" ELSE "take", (rr[4 + j] % 6)>>]
                            takes == \E j \in 1..3 : ops[j][1] = "take"
                        IN NewSeq(SliceRun(xs, ops, 1), ~takes, e.ety, SliceTerm(V(i), ops, 1))
+           ELSE IF q = 7 /\ {j \in SeqEntries(e.ety, FALSE) : Len(pool[j].v) = 0} # {}
+                  THEN \* concatenation with an empty right operand is the left operand, infinite or not,
+                       \* however the empty operand came about
+                       LET j == Ch({j \in SeqEntries(e.ety, FALSE) : Len(pool[j].v) = 0}, rr[3])
+                       IN NewSeq(xs, TRUE, e.ety, Call("add", <<V(i), V(j)>>))
            ELSE IF q = 6 /\ SeqEntries(e.ety, FALSE) # {}
                   THEN LET j == Ch(SeqEntries(e.ety, FALSE), rr[3])
                        IN IF Len(pool[j].v) + n >= 12
